@@ -36,6 +36,7 @@ enum class Err { None, Bad };
 enum class Err2 { None, Worse };
 template <typename T> struct W { T value; NOP_VALUE(W, value); };
 template <typename T, std::size_t N> struct WB { std::array<T, N> data; std::size_t size; NOP_VALUE(WB, (data, size)); };
+template <typename T, std::size_t N> struct WA { T lanes[N]; NOP_VALUE(WA, lanes); };   // value wrapper around a plain C array
 struct S1 { std::int32_t a; std::string b; NOP_STRUCTURE(S1, a, b); };
 struct S2 { std::int32_t x; std::string y; NOP_STRUCTURE(S2, x, y); };
 struct S3 { std::string a; std::int32_t b; NOP_STRUCTURE(S3, a, b); };
@@ -109,6 +110,10 @@ def wb(e, n):
     return {'cpp': 'WB<%s, %d>' % (e['cpp'], n), 'sig': seq_sig(e, None, n), 'integral': False}
 
 
+def wa(e, n):
+    return {'cpp': 'WA<%s, %d>' % (e['cpp'], n), 'sig': seq_sig(e, n), 'integral': False}
+
+
 def struct(name, *members):
     return {'cpp': name, 'sig': ('STU', tuple(m['sig'] for m in members)), 'integral': False}
 
@@ -154,7 +159,8 @@ def catalogue():
          mapof('map', i32, s), mapof('unordered_map', i32, s), mapof('map', s, i32), mapof('map', wi, s),
          lb('LBc', u8, 8, 'std::uint8_t'), lb('LBc', i32, 8, 'std::uint16_t'), lb('LBa', i32, 8, 'std::size_t'), lb('LBc', s, 4, 'std::uint32_t'),
          lb('LBc', i32, 3, 'int'), lb('LBc', wi, 3, 'int'), lb('LBa', wi, 8, 'std::size_t'), lb('LBa', i32, 4, 'std::uint8_t'),
-         wi, ws, wrap(vector(i32)), wb(i32, 4), wb(s, 2),
+         wi, ws, wrap(vector(i32)), wb(i32, 4), wb(s, 2), wa(i32, 4), wa(f32, 2), carray(i32, 8), carray(f32, 3), array(i32, 4), tup(f32, f32),
+         lb('LBc', f32, 4, 'std::size_t'), array(f32, 4),
          struct('S1', i32, s), struct('S2', i32, s), struct('S3', s, i32), struct('S4', wi, s), struct('S5', vector(i32)),
          opt(i32), opt(wi), opt(s), res('Err', i32), res('Err', wi), res('Err2', i32), res('Err', s),
          var(i32, s), var(s, i32), var(wi, s),
@@ -178,6 +184,7 @@ def documented(c):
         ('std::map<std::int32_t, std::string>', 'std::unordered_map<std::int32_t, std::string>'),
         ('W<std::int32_t>', 'std::int32_t'), ('W<std::string>', 'std::string'), ('W<std::vector<std::int32_t>>', 'std::vector<std::int32_t>'),
         ('WB<std::int32_t, 4>', 'std::vector<std::int32_t>'), ('WB<std::string, 2>', 'std::vector<std::string>'),
+        ('WA<std::int32_t, 4>', 'std::array<std::int32_t, 4>'), ('WA<std::int32_t, 4>', 'std::vector<std::int32_t>'), ('WA<float, 2>', 'std::tuple<float, float>'),
         ('S1', 'S2'), ('S1', 'S4'), ('TA', 'TB'),
         ('nop::Optional<std::int32_t>', 'nop::Optional<W<std::int32_t>>'), ('nop::Result<Err, std::int32_t>', 'nop::Result<Err, W<std::int32_t>>'),
         ('nop::Variant<std::int32_t, std::string>', 'nop::Variant<W<std::int32_t>, std::string>'),
